@@ -7,7 +7,8 @@
 (*   fn    : `vis trait T` next to the function                            *)
 (*   mod   : inside the module, `pub(super) trait T` when no visibility    *)
 (*           was requested, else `vis trait T`; plus `vis use m::T;` next   *)
-(*           to the module (the name the user sees)                        *)
+(*           to the module (the name the user sees); the trait itself is    *)
+(*           also reachable as m::T and must not be wider there either      *)
 (*   trait : the delegation-target trait copies the trait's visibility     *)
 (* The accessibility of the user-visible name is computed on that          *)
 (* structure and compared with Level 1 (Req!Accessible of the REQUEST).    *)
@@ -22,7 +23,10 @@ VisFor(mode) == IF mode = "fn" THEN {"", "pub", "pub(crate)", "pub(super)", "pub
 \* delegation-target trait's name - neither may influence the generated trait's visibility
 ItemVis == {"", "pub", "pub(crate)"}
 Locs == {"same", "child", "sibling", "parent", "other-crate"}
-Inputs == { i \in [mode : Modes, vis : UNION { VisFor(m) : m \in Modes }, itemvis : ItemVis, loc : Locs] : i.vis \in VisFor(i.mode) }
+\* via: the name the probe uses: "name" = the user-visible name D::T; "inmod" (module inputs only) = the trait itself, D::m::T -
+\* probed only from locations that can name the module m at all, so that the verdict is about the trait
+Inputs0 == { i \in [mode : Modes, vis : UNION { VisFor(m) : m \in Modes }, itemvis : ItemVis, loc : Locs, via : {"name", "inmod"}] :
+             i.vis \in VisFor(i.mode) /\ (i.via = "inmod" => i.mode = "mod") }
 
 P == <<"cases", "p">>
 D == P \o <<"d">>
@@ -38,8 +42,9 @@ Emitted(i) ==
     [] i.mode = "trait" -> { [name |-> "T", def |-> D, vis |-> i.vis] }          \* TrImpl: trait_copy.vis = the trait's visibility
 \* naming D::T from a location: the item (or re-export) called T in D must be accessible; a re-export additionally needs its
 \* target to be nameable from D itself (it always is: pub(super) of D::m is D)
+Inputs == { i \in Inputs0 : i.via = "inmod" => R!Accessible(i.itemvis, D, FromPath(i.loc), SameCrate(i.loc)) }
 PredAccessible(i) ==
-  LET t == CHOOSE x \in Emitted(i) : x.name = "T" IN R!Accessible(t.vis, t.def, FromPath(i.loc), SameCrate(i.loc))
+  LET t == CHOOSE x \in Emitted(i) : x.name = (IF i.via = "inmod" THEN "m::T" ELSE "T") IN R!Accessible(t.vis, t.def, FromPath(i.loc), SameCrate(i.loc))
 L1In(i) == [vis |-> i.vis, def |-> D, from |-> FromPath(i.loc), samecrate |-> SameCrate(i.loc)]
 
 VARIABLES i, pc, items
@@ -50,7 +55,7 @@ ResolveProbe == pc = "probe" /\ pc' = "done" /\ UNCHANGED <<i, items>>
 Spec == Init /\ [][GenTraitVisibility \/ ResolveProbe]_vars
 \* never wider, never narrower than requested - independent of the item's own visibility
 Refines == pc = "done" => PredAccessible(i) = R!Accessible(i.vis, D, FromPath(i.loc), SameCrate(i.loc))
-IndependentOfItemVis == \A a, b \in Inputs : (a.mode = b.mode /\ a.vis = b.vis /\ a.loc = b.loc) => PredAccessible(a) = PredAccessible(b)
+IndependentOfItemVis == \A a, b \in Inputs : (a.mode = b.mode /\ a.vis = b.vis /\ a.loc = b.loc /\ a.via = b.via) => PredAccessible(a) = PredAccessible(b)
 ASSUME IndependentOfItemVis
 
 ASSUME DumpCases => ndJsonSerialize(IOEnv.OUT, SetToSeq({ [in |-> x, l1 |-> L1In(x), expect |-> R!Accessible(x.vis, D, FromPath(x.loc), SameCrate(x.loc)),
